@@ -60,14 +60,20 @@ chk("C07", "proof",
 import re, glob
 def _doc(pid):
     try:
-        t = open(os.path.join(ROOT, "docs", "%s.md" % pid)).read()
+        lines = open(os.path.join(ROOT, "docs", "%s.md" % pid)).read().split("\n")
     except OSError:
         return None
-    m = re.search(r'level_claimed\.text`?\s*:\s*"([^"]+)"', t, re.S)
-    n = re.search(r'level_note`?\s*:\s*"?([^"\n]+(?:\n(?![*#])[^\n]+)*)', t)
-    q = re.search(r'technique`?\s*:\s*"?([^"\n]+(?:\n(?![*#])[^\n]+)*)', t)
-    cl = lambda x: " ".join(x.group(1).replace("`", "").split()).rstrip('".') if x else ""
-    return cl(m), cl(n), cl(q)
+    def grab(key):
+        for i, l in enumerate(lines):
+            if key in l and ":" in l.split(key, 1)[1]:
+                txt = l.split(key, 1)[1].split(":", 1)[1]
+                j = i + 1
+                while j < len(lines) and lines[j].strip() and not lines[j].lstrip().startswith(("* ", "- ", "#", "|")):
+                    txt += " " + lines[j]
+                    j += 1
+                return " ".join(txt.replace("`", "").split()).strip(' "').rstrip('.')
+        return ""
+    return grab("level_claimed.text"), grab("level_note"), grab("technique")
 for f in sorted(glob.glob(os.path.join(ROOT, "checks", "C*.py"))):
     pid = os.path.basename(f)[:-3]
     if pid in CHECKS:
